@@ -14,6 +14,8 @@ Zero == "0000000000000000"
 A == INSTANCE Abs WITH None <- None, Zero <- Zero
 \* conformance of the command channel with Channel.tla, on the hook events of the same runs
 Ch == INSTANCE TraceChan WITH None <- None
+\* conformance of the collector's batch processing with Collector.tla, on the collector's hook events
+Cl == INSTANCE TraceColl WITH None <- None, Zero <- Zero
 
 Rec == ndJsonDeserialize(IOEnv.TRACE)
 N == Len(Rec)
@@ -33,15 +35,16 @@ CfgOf(e) == [cancelable |-> e.cfg.cancelable, enabled |-> e.cfg.enabled, ready |
              queue |-> e.cfg.queue, stack |-> e.cfg.stack, foreign |-> A!Rng(e.cfg.foreign),
              tolm |-> 60, tolw |-> 3000]
 
-\* consume lines from j until the next reset; returns <<abstract state, next line, channel state>>
-RECURSIVE Consume(_, _, _)
-Consume(a, j, c) ==
-  IF j > N \/ Rec[j].ev = "reset" THEN <<a, j, c>>
+\* consume lines from j until the next reset; returns <<abstract state, next line, channel state, collector state>>
+RECURSIVE Consume(_, _, _, _)
+Consume(a, j, c, k) ==
+  IF j > N \/ Rec[j].ev = "reset" THEN <<a, j, c, k>>
   ELSE LET e == Rec[j]
            a1 == IF e.ev = "hang" THEN A!Viol(a, IF "p" \in DOMAIN e THEN e.p ELSE "C07", "hang", e.who) ELSE A!AbsStep(a, e) IN
-       Consume(a1, j + 1, Ch!ChanStep(c, e))
+       Consume(a1, j + 1, Ch!ChanStep(c, e), Cl!CollStep(k, e))
 
 ShowDrift(run, d) == PrintT(<<"DRIFT", ToJson([run |-> run, p |-> d.p, w |-> d.w, k |-> "", d |-> ToString(d.d)])>>)
+ShowCDrift(run, d) == PrintT(<<"CDRIFT", ToJson([run |-> run, p |-> d.p, w |-> d.w, k |-> "", d |-> ToString(d.d)])>>)
 Show(run, v) == PrintT(<<"VIOL", ToJson([run |-> run, p |-> v.p, w |-> v.w, k |-> IF v.k = None THEN "" ELSE v.k, d |-> ToString(v.d)])>>)
 
 Init == i = 1 /\ runs = 0 /\ bad = 0 /\ hb = 0
@@ -54,12 +57,16 @@ Next ==
                THEN A!Viol(a0, "C16", "set_reporter-started-a-thread", Rec[i].cfg.sr_threads)
                ELSE IF ~Rec[i].cfg.enabled /\ "flush_threads" \in DOMAIN Rec[i].cfg /\ Rec[i].cfg.flush_threads # 0
                THEN A!Viol(a0, "C16", "flush-started-a-thread", Rec[i].cfg.flush_threads) ELSE a0
-         r == Consume(a1, i + 1, Ch!ChanInit(IF "ring" \in DOMAIN Rec[i].cfg THEN Rec[i].cfg.ring ELSE 10240))
+         r == Consume(a1, i + 1, Ch!ChanInit(IF "ring" \in DOMAIN Rec[i].cfg THEN Rec[i].cfg.ring ELSE 10240),
+                      Cl!CollInit(Rec[i].cfg.cancelable, A!Rng(Rec[i].cfg.foreign)))
+         cdr == Cl!CollResult(r[4])
          v == r[1].viol
          dr == Ch!ChanResult(r[3]) IN
      /\ \A k \in DOMAIN v : Show(Rec[i].run, v[k])
      /\ \A k \in DOMAIN dr : ShowDrift(Rec[i].run, dr[k])
      /\ r[3].steered => PrintT(<<"CHAN", Rec[i].run, r[3].events>>)
+     /\ \A k \in DOMAIN cdr : ShowCDrift(Rec[i].run, cdr[k])
+     /\ r[4].cycles > 0 => PrintT(<<"COLL", Rec[i].run, r[4].cycles, r[4].recs>>)
      /\ r[1].ovl => PrintT(<<"OVL", Rec[i].run>>)
      /\ LET churn == "churn" \in DOMAIN Rec[i].cfg /\ r[1].heap # None IN
         /\ hb' = IF churn /\ runs = Warm THEN r[1].heap ELSE hb
